@@ -100,3 +100,55 @@ def _shape(e, shapes):
             return None          # reported at the inner call
         return RESULT[e.func.id](k)
     return None
+
+
+PREDICATES = {'ismatrix', 'isvector', 'isscalar', 'isrot', 'ishom', 'isrot2', 'ishom2', 'isR', 'isskew', 'isskewa', 'iseye',
+              'isunitvec', 'iszerovec', 'isunittwist', 'isunittwist2', 'isnumberlist', 'islistof', 'isvectorlist', 'issymbol'}
+
+
+def check_predicate_results(run, funcs, rule='R20'):
+    """A name bound to the result of a predicate (a bool) and then subscripted / transposed / used in arithmetic is a confusion
+    of the test with the converter (ismatrix for getmatrix): the use raises TypeError for every input."""
+    from ..cfg import reaching_defs
+    n = 0
+    for f in funcs:
+        fi = FuncInfo.of(f)
+        cand = {}
+        for st in own_walk(f.node):
+            if isinstance(st, ast.Assign) and len(st.targets) == 1 and isinstance(st.targets[0], ast.Name) and isinstance(st.value, ast.Call):
+                c = canon(fi, st.value, inline=False)
+                if isinstance(c, ast.Call) and isinstance(c.func, ast.Name) and c.func.id in PREDICATES:
+                    cand.setdefault(st.targets[0].id, []).append(st)
+        if not cand:
+            continue
+        cfg = CFG(f.node)
+        IN, OUT = reaching_defs(cfg, f.allparams)
+        reach = cfg.reachable()
+        pred_nodes = {nm: {cfg.node_of(st).id for st in sts if cfg.node_of(st) is not None} for nm, sts in cand.items()}
+        parents = {}
+        for x in own_walk(f.node):
+            for ch in ast.iter_child_nodes(x):
+                parents[id(ch)] = x
+        for node in cfg.nodes:
+            if node.id not in reach:
+                continue
+            for h in header_expr(node):
+                if h is None:
+                    continue
+                for x in ast.walk(h):
+                    if isinstance(x, ast.Name) and isinstance(x.ctx, ast.Load) and x.id in cand:
+                        defs = {d for (nm, d) in IN.get(node.id, ()) if nm == x.id}
+                        if not defs or not defs <= pred_nodes[x.id]:
+                            continue
+                        par = parents.get(id(x))
+                        arr = (isinstance(par, ast.Subscript) and par.value is x) or \
+                              (isinstance(par, ast.Attribute) and par.attr in ('T', 'shape', 'flatten', 'reshape')) or \
+                              (isinstance(par, ast.BinOp) and isinstance(par.op, ast.MatMult))
+                        n += 1
+                        if arr:
+                            run.violation(rule, f.key, 'predicate result used as an array: ' + src(par, 30),
+                                          '%s holds the boolean returned by %s (every definition reaching this use), but is used as an array: '
+                                          'TypeError for every input' % (x.id, src(cand[x.id][0].value, 40)), f=f, node=x)
+                        else:
+                            run.holds(rule, f.key, 'predicate result ' + x.id, 'used as a truth value', f=f, node=x, nontrivial=False)
+    return n
